@@ -40,6 +40,8 @@ def check(run):
                           'from websocket.host/port; exactly one sendall before the read loop', 6)
     R.rule('C19.gate', 'return only after a non-None response from ProxyParser.feed; the parser yields a response only '
                        'for status 200 and a well-formed, <=16 KiB header block', 9)
+    from .common import exception_text_total as _ett
+    _ett(R, 'C19.gate')        # '{}'.format(error) in the failure handlers cannot itself fail
     R.rule('C19.silent', 'nothing else is sent on the proxy socket before the return; TLS to the target after the loop', 2)
     R.rule('C19.order', 'build_request only from _send_request, only from run(), after _connect() returned normally', 4)
     R.rule('C19.private', 'the proxy socket is not published to the session before the tunnel is up (other threads\' '
